@@ -904,3 +904,32 @@ PROPS["C17"] = dict(
         _vm("c17", "c17_run_three_times_failing", "thorough", dispatches=4, bounds="failing program, clear, run again"),
     ],
 )
+
+# --------------------------------------------------------------------------- C02
+PROPS["C02"] = dict(
+    functions=["RuntimeData::{gc,free_object,init_string,init_function,init_closure}, CaoLangAllocator::alloc (forced-collection "
+               "hook), Vm::_run dispatch of StringLiteral/FunctionPointer/CallFunction/ReadUpvalue/CallNative, "
+               "instr_execution::{instr_string_literal,instr_call_function,read_upvalue,call_native}, VmFunction1::call"],
+    bounds="table-free heaps of one or two objects (strings of 1-2 solver-chosen ASCII bytes, a function, a closure); "
+           "fragments of 2-3 instructions with 1-2 allocation points; the collection schedule is a solver-chosen bit "
+           "mask over those allocation points (all subsets)",
+    outside="fragments containing tables (AppendTable/SetProperty/NthRow with growth: did not close, DESIGN §0), "
+            "whole programs, more than two allocation points, upvalues and captured variables, stdlib natives",
+    explanation="The schedule of collections is a solver variable. For each fragment CBMC's own pointer checks flag any "
+                "access to a freed object, and a content audit compares every value that must survive with its "
+                "original content; counterexamples replay natively with freed objects quarantined as tombstones.",
+    assumptions=["collections forced through the verif-hooks gc schedule; objects' guards released before the fragment"],
+    level_text="Bounded model checking with Kani/CBMC of small table-free heap fragments under every placement of forced "
+               "collections: values reachable from the value stack and from globals survive unchanged; the two rooting "
+               "gaps the check finds (closure of an active frame, argument held by a host function) are recorded findings.",
+    level_note="Trusted: Kani/CBMC incl. its memory model; fragments are tiny; tables are outside.",
+    design_ref="DESIGN.md §3 C02",
+    cap=dict(quick=300, thorough=900), mem_gb=18, jobs=3,
+    harnesses=[
+        _vm("c02", "c02_string_in_global_survives", dispatches=2, bounds="string in a global across StringLiteral, schedule in 0..=3", objects=True),
+        _vm("c02", "c02_string_on_stack_survives", dispatches=2, bounds="string on the value stack across StringLiteral", objects=True),
+        _vm("c02", "c02_unreachable_string_is_collected", dispatches=2, bounds="unreachable string, collection at the first allocation", objects=True),
+        _vm("c02", "c02_running_closure_survives", dispatches=3, bounds="closure executing its own body allocates; schedule in 0..=1", objects=True),
+        _vm("c02", "c02_native_argument_survives", dispatches=2, bounds="native holding a popped string argument allocates; schedule in 0..=1", objects=True),
+    ],
+)
